@@ -5,6 +5,8 @@ package raft
 import (
 	"encoding/binary"
 
+	"google.golang.org/protobuf/proto"
+
 	pb "go.etcd.io/raft/v3/raftpb"
 )
 
@@ -135,3 +137,55 @@ func vpH_api_ReportUnreachable_L() { vpAPICell(StateLeader, vpAPIReportUnreachab
 func vpH_api_ReportSnapshot_L()    { vpAPICell(StateLeader, vpAPIReportSnapshot, []int{0}, "API/report-snapshot-failure-is-a-rejecting-MsgSnapStatus") }
 func vpH_api_Tick_F()              { vpAPICell(StateFollower, vpAPITick, []int{0}, "API/tick-is-the-role-tick") }
 func vpH_api_Tick_L()              { vpAPICell(StateLeader, vpAPITick, []int{0}, "API/tick-is-the-role-tick") }
+
+// ProposeConfChange at a leader that may accept a configuration change: the
+// entry it appends has the type that matches its encoding and decodes back to
+// the change that was proposed (a ConfChange stays a ConfChange, a
+// ConfChangeV2 stays a ConfChangeV2).
+func vpAPIProposeConfChange(v2 bool) {
+	o := vpDefaultOpts(StateLeader)
+	o.ls, o.lu = 0, 1
+	o.plainData = true
+	o.leaderPr = false
+	nd := vpBuild(o)
+	r := nd.r
+	rn := &RawNode{raft: r}
+	vpAssume(vpAnd(r.leadTransferee == None, uint64(r.maxUncommittedSize) == noLimit, r.pendingConfIndex <= r.raftLog.applied))
+	pre := vpViewOf(r.raftLog)
+	var err error
+	var wantType pb.EntryType
+	t1, id1 := vpU32(), vpU64()
+	vpAssume(t1 <= 3)
+	if !v2 {
+		wantType = pb.EntryConfChange
+		err = rn.ProposeConfChange(&pb.ConfChange{Type: new(pb.ConfChangeType(t1)), NodeId: new(id1)})
+	} else {
+		wantType = pb.EntryConfChangeV2
+		// a single change with the automatic transition: the simple protocol,
+		// which this leader (not joint) accepts
+		err = rn.ProposeConfChange(&pb.ConfChangeV2{Changes: []*pb.ConfChangeSingle{{Type: new(pb.ConfChangeType(t1)), NodeId: new(id1)}}})
+	}
+	vpAssert(err == nil, "API/propose-conf-change-accepted")
+	post := vpViewOf(r.raftLog)
+	vpAssert(post.last == pre.last+1, "API/propose-conf-change-appends-one-entry")
+	if post.last != pre.last+1 {
+		return
+	}
+	e := r.raftLog.unstable.entries[len(r.raftLog.unstable.entries)-1]
+	vpAssert(vpAnd(e.GetType() == wantType, e.GetIndex() == pre.last+1, e.GetTerm() == r.Term, r.pendingConfIndex == pre.last+1), "API/propose-conf-change-entry-type-and-position")
+	if e.GetType() == pb.EntryConfChange {
+		var cc pb.ConfChange
+		vpAssert(proto.Unmarshal(e.GetData(), &cc) == nil, "API/propose-conf-change-decodes")
+		vpAssert(vpAnd(uint32(cc.GetType()) == t1, cc.GetNodeId() == id1), "API/propose-conf-change-round-trips")
+	} else if e.GetType() == pb.EntryConfChangeV2 {
+		var cc pb.ConfChangeV2
+		vpAssert(proto.Unmarshal(e.GetData(), &cc) == nil, "API/propose-conf-change-decodes")
+		vpAssert(len(cc.GetChanges()) == 1, "API/propose-conf-change-round-trips")
+		if len(cc.GetChanges()) == 1 {
+			vpAssert(vpAnd(uint32(cc.GetChanges()[0].GetType()) == t1, cc.GetChanges()[0].GetNodeId() == id1, cc.GetTransition() == pb.ConfChangeTransitionAuto), "API/propose-conf-change-round-trips")
+		}
+	}
+}
+
+func vpH_api_ProposeConfChange_v1() { vpAPIProposeConfChange(false) }
+func vpH_api_ProposeConfChange_v2() { vpAPIProposeConfChange(true) }
